@@ -518,6 +518,136 @@ pub fn gen_file(rng: &mut Rng, tier: Tier, n: usize) -> Vec<String> {
     gen_stream(rng, tier, n, AVOID_FILE, |_, e| Some(format!("(file {})", e.to_sexp()?)))
 }
 
+fn set_first(props: &mut Vec<(String, Val)>, key: &str, v: Val) {
+    // put the value in front so that it is the first (= effective) one, keeping later duplicates
+    props.insert(0, (key.to_string(), v));
+}
+
+fn kind_val(rng: &mut Rng, k: emit::Kind) -> Val {
+    let name = if k == emit::Kind::Span { "span" } else { "metric" };
+    match rng.below(6) {
+        0 => Val::Kind(k),
+        1 => Val::Str(name.to_uppercase()),
+        2 => Val::Str(format!(" {}\t", name)),
+        3 => Val::Disp(name.to_string()),
+        _ => Val::Str(name.to_string()),
+    }
+}
+
+const METRIC_FLOATS: [f64; 9] = [0.0, -0.0, 1.0, 1.5, -2.25, 0.1, 1e15, 123456789.125, 5e-324];
+
+fn metric_number(rng: &mut Rng) -> Tree {
+    match rng.below(6) {
+        0 | 1 => Tree::Int(Int::signed(Ty::I64, rng.range(0, 2000) as i128 - 1000)),
+        2 => Tree::Int(Int::unsigned(*rng.pick(&[Ty::U8, Ty::U16, Ty::U32, Ty::U64]), rng.range(0, 255) as u128)),
+        3 => Tree::Int(Int::signed(Ty::I64, *rng.pick(&[i64::MAX as i128 / 4, i64::MIN as i128 / 4, 1 << 53, (1 << 53) + 1]))),
+        4 => Tree::F32(*rng.pick(&[0.5f32, 1.1, -3.5])),
+        _ => Tree::F64(*rng.pick(&METRIC_FLOATS)),
+    }
+}
+
+fn metric_value(rng: &mut Rng, av: Avoid) -> Val {
+    match rng.below(14) {
+        0 | 1 => Val::Int(Int::signed(Ty::I64, rng.range(0, 2000) as i128 - 1000)),
+        2 => Val::Int(int(rng)),
+        3 => Val::F64(*rng.pick(&METRIC_FLOATS)),
+        4..=7 => {
+            let n = rng.range(0, 6) as usize;
+            Val::Sv(Tree::Seq((0..n).map(|_| metric_number(rng)).collect()))
+        }
+        8 => Val::Sv(Tree::Tup(vec![metric_number(rng), metric_number(rng)])),
+        9 => Val::Sv(Tree::Bin((0..rng.range(0, 4)).map(|_| rng.next() as u8).collect())),
+        10 => Val::Sv(Tree::Seq(vec![metric_number(rng), Tree::Seq(vec![metric_number(rng)])])),
+        11 => Val::Sv(Tree::Some(Box::new(metric_number(rng)))),
+        12 => Val::Sv(rng.pick(&[Tree::Map(vec![]), Tree::Rec(vec![]), Tree::Seq(vec![Tree::Text("x".into())]), Tree::Seq(vec![Tree::None_])]).clone()),
+        _ => any_val(rng, av, 2),
+    }
+}
+
+/// bend a generic event towards the signal under test (most of the time)
+fn shape(rng: &mut Rng, e: &mut EventD, signal: &str, av: Avoid) {
+    if rng.chance(1, 8) {
+        return;
+    }
+    match signal {
+        "traces" => {
+            e.props.retain(|(k, _)| k != "evt_kind");
+            set_first(&mut e.props, "evt_kind", kind_val(rng, emit::Kind::Span));
+            if !matches!(e.extent, ExtentD::Range(..)) && rng.chance(9, 10) {
+                let a = ts(rng, av);
+                let b = ts(rng, av);
+                e.extent = if (b.secs, b.nanos) < (a.secs, a.nanos) { ExtentD::Range(b, a) } else { ExtentD::Range(a, b) };
+            }
+            for k in ["trace_id", "span_id", "span_parent", "span_name", "lvl", "err"] {
+                if rng.chance(1, 3) {
+                    let v = well_known_val(rng, k, av, 2);
+                    let at = rng.usize(e.props.len() + 1);
+                    e.props.insert(at, (k.to_string(), v));
+                }
+            }
+        }
+        "metrics" => {
+            e.props.retain(|(k, _)| k != "evt_kind");
+            set_first(&mut e.props, "evt_kind", kind_val(rng, emit::Kind::Metric));
+            if rng.chance(9, 10) {
+                e.props.retain(|(k, _)| k != "metric_value");
+                let v = metric_value(rng, av);
+                let at = rng.usize(e.props.len() + 1);
+                e.props.insert(at, ("metric_value".to_string(), v));
+            }
+            if rng.chance(2, 3) {
+                let v = match rng.below(6) {
+                    0 | 1 => Val::Str("count".into()),
+                    2 | 3 => Val::Str("sum".into()),
+                    4 => Val::Sv(Tree::Text(rng.pick(&["sum", "count", "last"]).to_string())),
+                    _ => well_known_val(rng, "metric_agg", av, 2),
+                };
+                let at = rng.usize(e.props.len() + 1);
+                e.props.insert(at, ("metric_agg".to_string(), v));
+            }
+            for k in ["metric_name", "metric_unit", "metric_unit"] {
+                if rng.chance(1, 3) {
+                    let v = if rng.chance(3, 4) { Val::Str(rng.pick(&["requests", "ms", "By", "", "http.server.duration"]).to_string()) } else { any_val(rng, av, 2) };
+                    let at = rng.usize(e.props.len() + 1);
+                    e.props.insert(at, (k.to_string(), v));
+                }
+            }
+        }
+        _ => {}
+    }
+    if av.exception_keys && e.props.iter().any(|(k, _)| k == "err") {
+        e.props.retain(|(k, _)| k != "exception.message" && k != "exception.stacktrace");
+    }
+    // the collection may only claim uniqueness when its keys are distinct
+    let mut ks: Vec<&str> = e.props.iter().map(|(k, _)| k.as_str()).collect();
+    ks.sort();
+    if ks.windows(2).any(|w| w[0] == w[1]) {
+        e.unique = false;
+    }
+}
+
+/// a sum that overflows to +inf or adds up to a non-finite double hits the JSON non-finite finding
+fn metric_sum_nonfinite(e: &EventD) -> bool {
+    // conservative: any metric whose integer samples could overflow an i64 when added
+    fn big(t: &Tree) -> bool {
+        match t {
+            Tree::Int(i) => i.mag > (i64::MAX as u128) / 16,
+            Tree::Seq(xs) | Tree::Tup(xs) | Tree::Tvar(_, xs) => xs.iter().filter(|x| big(x)).count() >= 2,
+            Tree::Some(v) | Tree::Nvar(_, v) => big(v),
+            _ => false,
+        }
+    }
+    e.props.iter().any(|(k, v)| k == "metric_value" && matches!(v, Val::Sv(t) if matches!(t, Tree::Seq(_) | Tree::Tup(_) | Tree::Tvar(..)) && big(t)))
+}
+
 pub fn gen_otlp(rng: &mut Rng, tier: Tier, n: usize) -> Vec<String> {
-    gen_stream(rng, tier, n, AVOID_OTLP, |_, e| Some(format!("(otlp logs {})", e.to_sexp()?)))
+    gen_stream(rng, tier, n, AVOID_OTLP, |rng, e| {
+        let signal = *rng.pick(&["logs", "logs", "traces", "traces", "metrics", "metrics", "metrics"]);
+        let mut e = e.clone();
+        shape(rng, &mut e, signal, AVOID_OTLP);
+        if signal == "metrics" && metric_sum_nonfinite(&e) {
+            return None;
+        }
+        Some(format!("(otlp {} {})", signal, e.to_sexp()?))
+    })
 }
